@@ -6,7 +6,7 @@ operator space.  Set-level semantics are decided for the singleton-collapse law 
 import re
 import itertools
 from synq import Syn, walk
-from formula import OpVal, Unknown, Panic, some, is_some, fmt
+from formula import OpVal, Unknown, Panic, some, is_some, fmt, Interval
 from relmodel import RelModel, top_match, is_unreachable_arm
 
 # interval-arithmetic definitions, written from the doc comments of TextSelectionOperator
@@ -334,7 +334,8 @@ def run(ctx):
         return err(lo)
     ah = {"binary_search": bsearch,
           "insert": lambda ev, recv, args, node, env: (recv.insert(args[0], args[1]) or ()) if isinstance(recv, list) else NotImplemented,
-          "push": lambda ev, recv, args, node, env: (recv.append(args[0]) or ()) if isinstance(recv, list) else NotImplemented}
+          "push": lambda ev, recv, args, node, env: (recv.append(args[0]) or ()) if isinstance(recv, list) else NotImplemented,
+          "handle": lambda ev, recv, args, node, env: recv.get("intid") if isinstance(recv, Interval) and not args else NotImplemented}
     n_add = 0
     badadd = None
     try:
@@ -344,14 +345,20 @@ def run(ctx):
                     for flag in (True, False):
                         if flag and list(combo) != sorted(set(combo)):
                             continue
-                        st = StructVal("TextSelectionSet", {"data": [model.interval(*c) for c in combo], "sorted": flag})
-                        Evaluator(hooks=ah).run_body(addf.body, {"self": st, "textselection": model.interval(*x)})
-                        got = [(t["begin"], t["end"]) for t in st["data"]]
-                        n_add += 1
-                        if st["sorted"] is True and got != sorted(set(got)) and badadd is None:
-                            badadd = "add(%s) to the sorted set %s leaves %s with sorted=true" % (x, list(combo), got)
-                        if x not in got and badadd is None:
-                            badadd = "add(%s) to %s leaves %s: the item is missing" % (x, list(combo), got)
+                        for known in (False, True):   # members given by offset carry no handle, known selections carry one per range
+                            def mk(c):
+                                iv = model.interval(*c)
+                                if known and "intid" in iv:
+                                    iv["intid"] = some(("handle", c[0] * 16 + c[1]))
+                                return iv
+                            st = StructVal("TextSelectionSet", {"data": [mk(c) for c in combo], "sorted": flag})
+                            Evaluator(hooks=ah).run_body(addf.body, {"self": st, "textselection": mk(x)})
+                            got = [(t["begin"], t["end"]) for t in st["data"]]
+                            n_add += 1
+                            if st["sorted"] is True and got != sorted(set(got)) and badadd is None:
+                                badadd = "add(%s) to the sorted set %s leaves %s with sorted=true" % (x, list(combo), got)
+                            if x not in got and badadd is None:
+                                badadd = "add(%s) to %s leaves %s: the item is missing" % (x, list(combo), got)
         r_flag.hit("add", sample={"sets_evaluated": n_add})
         if badadd:
             ctx.report(r_flag, "add", "TextSelectionSet::" + badadd, addf.file, addf.line)
